@@ -17,6 +17,18 @@ CHECKS = {
   "technique": "Lean 4 invariant proof by induction over operation sequences + differential correspondence on generated two-endpoint scenarios",
   "design_ref": "DESIGN.md section 6 / C20",
  },
+ "C04": {
+  "text": "Lean theorems on the executable models: slicing of any payload up to MAX_PACKET_SIZE into <= 65536 valid fragments whose concatenation is the payload (C04_slices, C04_emit_wf); the fragment buffer reassembles any order with any repetition, first write wins (C04_fragbuf, C04_first_write_wins); an assembly-window slot fed any mix of genuine fragments and header-inconsistent ones (first one genuine) yields the packet exactly once, at the last missing fragment, byte-exact, and ignores everything else (C04_tryAdd, C04_tryAdd_once, C04_tryAdd_forged, C04_tryAdd_closed, single-fragment variants); every emitted data frame is <= 1472 bytes (C04_frame_size, C04_dfePush, C04_dfeFinalize). Tied to the code by hc correspondence (size sweeps around k*1448, permuted/duplicated/lost fragments, flush budgets cutting packets, slot reuse after window wrap, forged fragments) and by implementation-side oracles (byte-exact, exactly-once, frame size).",
+  "note": "Trusted: Lean kernel (propext, Classical.choice, Quot.sound), extract_consts.py, harness/driver; FragmentBuffer storage modelled lazily.",
+  "technique": "Lean 4 proofs (induction over fragment feeds, emitter invariant) + differential correspondence on generated two-endpoint scenarios",
+  "design_ref": "DESIGN.md section 6 / C04",
+ },
+ "C03": {
+  "text": "Every Rust panic site and unbounded loop of the codec, packet sender/receiver, frame queue, rate controller and half connection is an explicit Trap outcome of the executable Lean models; hostile correspondence streams (CRC-valid frames with arbitrary field values injected as raw bytes into a live connection, noise, 0 ms step spacings, tiny rate limits) compare trap/hang behaviour of model and code exactly, and the implementation-side oracle demands no panic/hang at all. Six genuine defects were found this way and repaired (known_findings.json: F1 F4 F5 F6 F7 F16). Proved so far: totality of the parser; the per-component no-trap theorems are listed in evidence.partial as they are completed.",
+  "note": "Partial: the trap-freedom theorems for PRecv/PSend/FrameQ/Rate/HalfConn and the client/server part are in progress; until then the claim rests on exact trap correspondence plus the no-trap oracle over the hostile streams. Trusted: harness catch_unwind + watchdog.",
+  "technique": "Lean 4 models with explicit trap outcomes + hostile differential correspondence; proofs of trap-freedom per component (in progress)",
+  "design_ref": "DESIGN.md section 6 / C03",
+ },
 }
 
 NOT_YET = "check not built yet (work in progress; see DESIGN.md section 11 for the order)"
@@ -42,7 +54,7 @@ def main():
             "guard": "--cfg uflow_verif",
             "enable": "harness/.cargo/config.toml sets rustflags = [\"--cfg\", \"uflow_verif\"]; the harness crate depends on /repo by path, so every check rebuilds /repo's working tree with the hooks on",
             "baseline_off_cmd": "cd /repo && (cargo nextest run --workspace --no-fail-fast --tool-config-file pb:/w/lib/nextest.toml --profile pb --test-threads 8 --offline || cargo test --workspace --no-fail-fast --offline)",
-            "source_commits": ["fe3b49a"],
+            "source_commits": ["fe3b49a", "b6d35f4", "18cf990"],
             "add_only": True,
         },
         "engines": [{"name": "lean4-proof+correspondence", "path": "/verif/check", "serves_properties": sorted(CHECKS),
